@@ -1293,3 +1293,11 @@ func (w *MyWorld) StmtsSince(i int) []Stmt {
 }
 
 func (w *MyWorld) StmtLen() int { w.mu.Lock(); defer w.mu.Unlock(); return len(w.Stmts) }
+
+// NewChannel builds a replication channel towards src; running starts both threads.
+func NewChannel(src string, running bool) *Channel {
+	return &Channel{Source: src, IODesired: running, SQLDesired: running, relaySet: map[txnKey]bool{}}
+}
+
+// SettleLocked is Settle for callers that already hold the world lock.
+func (w *MyWorld) SettleLocked() { w.settle() }
